@@ -319,7 +319,8 @@ fn probe(s: &mut Session, mask: u32, uv: f64) {
 /// and the midpoint between distant allowed neighbours
 pub fn drive_boundaries(s: &mut Session, rng: &mut Rng, thorough: bool) {
     let semi = 1e6 / 12.0;
-    let offs = [12.0f64, 30.0, 70.0];
+    // (1..3 microvolts: inside the tie tolerance of C08, but a forbidden note is a forbidden note there too)
+    let offs = [1.0f64, 2.0, 3.0, 12.0, 30.0, 70.0];
     let scales = scale_list(rng, if thorough { 600 } else { 40 });
     for m in scales {
         s.start();
@@ -347,6 +348,17 @@ pub fn drive_boundaries(s: &mut Session, rng: &mut Rng, thorough: bool) {
                 }
             }
         }
+        // just below / above the voltage of every FORBIDDEN note as well (an index slip at a semitone or
+        // octave border reports the note the border belongs to, allowed or not)
+        for n in 0..=131u32 {
+            if m & (1 << (n % 12)) == 0 {
+                let vn = n as f64 * semi;
+                for o in [1.0f64, 3.0] {
+                    probe(s, m, vn - o);
+                    probe(s, m, vn + o);
+                }
+            }
+        }
         s.stats.add("distinct_scales", 1);
     }
 }
@@ -365,7 +377,7 @@ pub fn drive_margins(s: &mut Session, rng: &mut Rng, thorough: bool) {
         let mut recent: Vec<f32> = Vec::new();
         for _ in 0..50 {
             let base = last as f64 * semi;
-            match rng.below(12) {
+            match rng.below(14) {
                 0 => {
                     s.forbid(&[last % 12]);
                 }
@@ -378,6 +390,34 @@ pub fn drive_margins(s: &mut Session, rng: &mut Rng, thorough: bool) {
                     s.allow(&[last % 12]);
                 }
                 3 => random_scale_edit(s, rng),
+                10 => {
+                    // a forbid that would empty the scale and keeps the current note (its pitch class last),
+                    // then a neighbour is allowed again, with no conversion in between
+                    let pc = last % 12;
+                    let mut all: Vec<u8> = (0..12u8).filter(|k| *k != pc).collect();
+                    rng.shuffle(&mut all);
+                    all.push(pc);
+                    s.forbid(&all);
+                    let nb = (pc + if rng.chance(1, 2) { 1 } else { 11 }) % 12;
+                    s.allow(&[nb]);
+                }
+                11 => {
+                    // a long run of scale edits between two conversions (256, 512 or 65536 forbid calls),
+                    // ending with the current note forbidden
+                    let n = *rng.pick(&[256usize, 512, 255, 257]);
+                    let pc = last % 12;
+                    let other = (pc + 5) % 12;
+                    s.allow(&[other]);
+                    for i in 0..(n - 1) {
+                        if i % 2 == 0 {
+                            s.forbid(&[pc]);
+                        } else {
+                            s.allow(&[pc]);
+                            s.forbid(&[(pc + 7) % 12]);
+                        }
+                    }
+                    s.forbid(&[pc]);
+                }
                 k => {
                     let v = match k {
                         4 => base + rng.unit() * semi,                          // inside the bucket
